@@ -121,8 +121,10 @@ def mkBeh (tbl : List (Key × List Action)) : Beh := fun k =>
 def parseOp (ws : List String) : Option Op :=
   match ws with
   | ["construct", i, lg] => some (.construct (nat! i) (lg == "1"))
+  | ["construct", i, lg, _fill] => some (.construct (nat! i) (lg == "1"))   -- prior memory contents: no input of the model
   | ["destroy", i] => some (.destroy (nat! i))
   | ["copy", i, src] => some (.copy (nat! i) (nat! src))
+  | ["copy", i, src, _fill] => some (.copy (nat! i) (nat! src))
   | ["enter", i] => some (.enter (nat! i))
   | ["exit", i] => some (.exit (nat! i))
   | ["update", i] => some (.update (nat! i))
